@@ -471,11 +471,17 @@ func ResponsePlacement(sp *spec.Spec, m *spec.Method, ex *rt.Exchange, v *Verdic
 				}
 			}
 		case valgen.Cookie:
-			got, ok := cookies[a.Name]
+			cname := a.Name
+			for _, l := range resp.Cookies {
+				if l.Attr == a.Name {
+					cname = l.WireName()
+				}
+			}
+			got, ok := cookies[cname]
 			if !ok {
-				bad("missing", "response cookie %q not set", a.Name)
+				bad("missing", "response cookie %q not set", cname)
 			} else if !textEq(got, val) {
-				bad("wrong-value", "response cookie %q carries %q, result value %s", a.Name, got, vtree.Show(val))
+				bad("wrong-value", "response cookie %q carries %q, result value %s", cname, got, vtree.Show(val))
 			}
 		case valgen.Body:
 			if !bodyIsObject {
